@@ -545,7 +545,10 @@ def _min_equal(obs, h, f, H, F, truth=None):
     if cond_cor > 1e3:
         rel *= 3
     if obs == "error_band()":
-        return bool(np.all((np.abs(h - f) <= 2 * rel * np.maximum(np.abs(h), np.abs(f)) + 1e-300) | both_nan))  # half-widths: relative; the precise (history-free) check is in compare()
+        # half-widths: relative, with a floor on the scale of the widest part of the band (far from a peak the band is 1e-20 of its maximum: no information there);
+        # the precise (history-free) check is in compare()
+        floor = 1e-3 * float(np.nanmax(np.abs(f))) if np.any(np.isfinite(f)) else 0.0
+        return bool(np.all((np.abs(h - f) <= 2 * rel * np.maximum(np.abs(h), np.abs(f)) + floor + 1e-300) | both_nan))
     if obs == "parameter_errors":
         return bool(np.all((np.abs(h - f) <= rel * e + 1e-300) | both_nan))
     if obs == "parameter_cov_mat":
